@@ -456,8 +456,34 @@ func runHistory(k *vf.Case) {
 			return
 		}
 	}
+	// half of the histories pass their attributes as a long key-value list in which earlier entries are
+	// overridden by later ones (defaults..., dimensions..., overrides...): the last value per key counts
+	listForm := r.Bool()
+	if listForm {
+		k.C.Count("histories_recording_with_long_overridden_attribute_lists", 1)
+	}
 	record := func(ms meas) {
 		o := metric.WithAttributeSet(ms.set())
+		if listForm && !ms.ovf {
+			fs := ms.set()
+			final := fs.ToSlice()
+			var kvs []attribute.KeyValue
+			for n := 12 + r.Intn(20); len(kvs) < n; {
+				for _, kv := range final {
+					switch kv.Value.Type() {
+					case attribute.INT64:
+						kvs = append(kvs, attribute.Int(string(kv.Key), -1-r.Intn(5)))
+					default:
+						kvs = append(kvs, attribute.String(string(kv.Key), "default"))
+					}
+				}
+			}
+			r.Shuffle(len(kvs), func(i, j int) { kvs[i], kvs[j] = kvs[j], kvs[i] })
+			rev := append([]attribute.KeyValue(nil), final...)
+			r.Shuffle(len(rev), func(i, j int) { rev[i], rev[j] = rev[j], rev[i] })
+			kvs = append(kvs, rev...)
+			o = metric.WithAttributes(kvs...)
+		}
 		switch ms.inst {
 		case "ci":
 			ci.Add(ctx, ms.v, o)
